@@ -147,8 +147,9 @@ def main():
         "wall_s": round(wall, 2),
         "violations": len(ul) if ul else (1 if rc else 0),
     }
-    lib.EVIDENCE.mkdir(exist_ok=True)
-    (lib.EVIDENCE / (prop + ".json")).write_text(json.dumps(ev, indent=1, default=repr))
+    evdir = lib.EVIDENCE if not args.no_build else lib.Path("/tmp/verif-nobuild-evidence")   # dev runs never touch evidence/
+    evdir.mkdir(exist_ok=True)
+    (evdir / (prop + ".json")).write_text(json.dumps(ev, indent=1, default=repr))
     for l in out_lines:
         print(l)
     print("%s %s tier=%s seed=%d theorems=%d/%d cases=%d nontrivial=%d ties=%s wall=%.1fs" % (
